@@ -116,7 +116,8 @@ def run(ctx: Ctx) -> None:
         if call is None:
             r.check(False, key, wi.loc(), f"{k}: branch for {t.name} constructs nothing")
             continue
-        kws = {kw.arg for kw in call.keywords}
+        from .c14 import as_keywords
+        kws = {kw.arg for kw in as_keywords(m, call, c)}
         if ast.unparse(call.func) == "FENCE":
             r.check(c.name == "FENCE" and not params, key, wi.loc(call), f"{k}: the fence branch builds FENCE() for {c.name}")
             continue
@@ -567,9 +568,12 @@ def lex_rule(ctx: Ctx, ge: GrammarEval) -> None:
             f"ABI register names differ from the RISC-V calling convention: {sorted(set(abi.items()) ^ set(std.items()))[:4]}")
     r.check(set(register_numbers(reg)) == {str(i) for i in range(32)}, "xN", pc.loc(), "xN is not accepted exactly for N in 0..31")
     cr = m.method(pc, "_convert_register_name", own=True)
-    t = " ".join(ast.unparse(cr.node).split())
-    r.check("if type(parsed_register[0]) == str: return self._reg_mapping[parsed_register[0]] else: return int(parsed_register[0][1])" in t,
-            "convert", cr.loc(), "register conversion is no longer {ABI name -> table, xN -> N}")
+    from ..flowspec import merged_result
+    from ..parsershape import normal_flow
+    cfl = normal_flow(m, cr)
+    got = [cfl.canon(x) for x in merged_result(cfl)]
+    r.check(got == ["cases[isinstance(P1[0], str)]{P0._reg_mapping[P1[0]] #2; int(P1[0][1]) #1}"], "convert", cr.loc(),
+            f"register conversion is no longer {{ABI name -> table, xN -> N}}: {got}")
     from ..parsershape import KEEP, TEXT, sanitize_form
     sa, form = sanitize_form(m)
     ok = form is not None and form["text"] == TEXT and form["keep"] in KEEP and form["iter"] == "enumerate(P0.program.splitlines())"
